@@ -243,6 +243,9 @@ func (w *SrvWorld) noteSettingsSent(kv [][2]uint32) {
 			v.hasFrame, v.frame = true, int64(s[1])
 		}
 	}
+	if v.hasTable {
+		w.tblWatch.sent(v.table)
+	}
 	w.peerSettingsVals = append(w.peerSettingsVals, v)
 }
 
@@ -857,6 +860,13 @@ func (w *SrvWorld) laneEnabled(l *laneState) bool {
 		}
 	}
 	if l.next == 0 && l.lane.After == -3 {
+		// "after everything else" is judged with every goroutine of the server at rest: a handler that has been dispatched
+		// has then entered, one that has returned has handed its slot back (the stream loop has taken it off handlerDone).
+		// Without this the request could overtake the slot of a stream that was reset while its handler was about to
+		// start or about to report back, and be refused - correctly (seen once in 161 000 runs of the thorough tier).
+		if len(w.sim.enabledG()) > 0 {
+			return false
+		}
 		for _, a := range w.lanes[:l.idx] {
 			if len(a.lane.Ops) == 0 {
 				continue
